@@ -2,13 +2,13 @@ SPECIFICATION Spec
 CONSTANTS
   Conns = {"c1", "c2"}
   Keys = {"k1"}
-  MaxChg = 1
-  MaxFlips = 1
+  MaxChg = 2
+  MaxFlips = 0
   MaxOps = 4
-  Versioned = TRUE
+  Versioned = FALSE
   Timer = FALSE
   AllowRevoke = TRUE
-  AllowPublish = TRUE
+  AllowPublish = FALSE
   SplitTrack = FALSE
   AsCoded = {}
   Replay = FALSE
